@@ -59,6 +59,8 @@ mp.mp.dps = 25
 REPS = {1: R.ZERO, 2: R.CENTER, 3: R.ONEONE, 4: R.TILDE}
 U_GRID = [0.7, -1.5 + 0.5j, -1j, 3.0 - 0.8j, 0.25 + 0.9j, -6.0]
 QUAD_OK = 1e-12
+PRIMS = {"hem": ["sigma", "p", "eta1", "eta2", "intensity"], "merton": ["sigma", "sigma_j", "mu_j", "intensity"],
+         "vg": ["sigma", "nu", "theta"], "cgmy": ["c", "g", "m", "y"]}
 
 
 def track(ctx, name, diff, tol):
@@ -246,7 +248,13 @@ def exponent_after_walk_probe(ctx, fam, params, walk, q, spot, r, d):
     exponent must be unchanged (the process has not changed), must equal the Lévy–Khintchine integral built from the
     CURRENT (a, sigma, nu, representation), and the exponential model must still give the forward at -i.
     `q` = the quadratures of `exponent_probe` (representation-independent)."""
-    em = make(fam, params, exp=True, spot=spot, r=r, d=d)
+    # the quadratures `q` belong to make(fam, params); the Lévy and the exponential factories have different defaults
+    # (Merton mu_j 0.01 / 0.03), so the exponential model is built from that model's explicit parameter values
+    explicit = dict(params)
+    if fam != "bs":
+        p0 = make(fam, params).parameters
+        explicit = {k: getattr(p0, k) for k in PRIMS[fam]}
+    em = make(fam, explicit, exp=True, spot=spot, r=r, d=d)
     lm = em.levy_model
     trip = lm.levy_triplet                      # shared with em.levy_triplet
     yb = ybranch(fam, params)
